@@ -256,7 +256,16 @@ def c11_leaf(rng, doc=None):
     if doc is not None and r < 0.25 and datum == "value":
         def spec_parts(rng_, doc_):
             ps = c10.spec_path_recipe(rng_, rng_.choice([1, 1, 2]))
-            return [gen.prim_part(rng_, doc_) if isinstance(p, tuple) else p for p in ps]
+            ps = [gen.prim_part(rng_, doc_) if isinstance(p, tuple) else p for p in ps]
+            if rng_.random() < 0.3:
+                # an explicit part that a primitive would NOT be coerced to (MapValue(1), ListValue(0), ...) next to a
+                # part that can only be written as a full spec
+                near = {"rk": "map", "key": ("prim", rng_.choice([1, 0, True, 2])), "index": None, "value": None, "cond": None, "label": None}
+                if rng_.random() < 0.3:
+                    near = {"rk": "list", "key": None, "index": ("prim", rng_.choice([0, 1])), "value": None, "cond": None, "label": None}
+                other = {"rk": rng_.choice(["map", "list"]), "key": None, "index": None, "value": None, "cond": None, "label": None}
+                ps = [near, other] if rng_.random() < 0.5 else [other, near]
+            return ps
         c17.PARTS_GEN[0] = spec_parts
         try:
             return c17.cross_cond(rng, doc)
@@ -265,7 +274,9 @@ def c11_leaf(rng, doc=None):
     if r < 0.35 and rec["fn"] in gen.VALUE1:
         lit = rng.choice([{"path": ["a", 0]}, {"path.length": ["x"], "b": 1}, {"a": {"path": [1]}}, {"pathological": 1},
                           {"path": {"path": 1}}, {"path.x": {"path": [1]}, "b": {"path.first": ["a"]}},
-                          {"a": {"path": {"path": ["z"]}}}, [{"path": ["a"]}, {"b": {"path": [2]}}], {"b": [{"path": ["a"]}]}])
+                          {"a": {"path": {"path": ["z"]}}}, [{"path": ["a"]}, {"b": {"path": [2]}}], {"b": [{"path": ["a"]}]},
+                          {"b": 1, "path": ["a"]}, {"mode": "x", "n": 2, "path.length": ["a", 0]}, {"a": {"b": 1, "path": [1]}},
+                          [{"b": 1, "path.first": ["a"]}, 3]])
         rec = dict(rec, actuals=[lit], akw={})
     return ("leaf", rec)
 
